@@ -326,6 +326,20 @@ def build_unit(u, tier, workdir, cfg, extra_defs=(), tag="p"):
         if u["enforce"] or u["replace"] or u["loops"]:
             raise ToolError("unit %s: nodfcc is incompatible with contracts" % u["unit"])
         igb = gb
+        if u.get("cut_functions"):
+            # functions the unit's precondition makes unreachable but whose bodies symex would still explore (e.g. the mutually
+            # recursive append path of the option editors): body replaced by assert(false); assume(false) - reaching one fails
+            # an obligation ("<fn> is not reached in this unit")
+            igb = os.path.join(workdir, "%s.%s.c.gb" % (u["unit"], tag))
+            gi = ["goto-instrument"]
+            for f in u["cut_functions"]:
+                gi += ["--remove-function-body", f]
+            gi += ["--generate-function-body", "|".join("(%s)" % f for f in u["cut_functions"]),
+                   "--generate-function-body-options", "assert-false-assume-false", gb, igb]
+            cmds.append(" ".join(gi))
+            rc, out, err, _ = sh(gi, timeout=300)
+            if rc != 0:
+                raise ToolError("goto-instrument (cut_functions) failed for %s: %s" % (u["unit"], (out + err)[-2000:]))
         uw = []
         if u["unwindset"]:
             rc, lo, le, _ = sh(["cbmc", igb, "--show-loops"], timeout=120)
